@@ -34,4 +34,6 @@ void ieee_reset(void);
 extern struct op_entry ops_codec[];
 void codec_reset(void);
 void codec_reset_all(void);
+extern struct op_entry ops_tables[];
+void tables_reset(void);
 #endif
